@@ -54,9 +54,13 @@ def gen(rng, depth, in_tr):
     if rng.random() < .15:
         st['omit'] = True
     if rng.random() < .25:
-        st['sattr'] = rng.choice(['Tit le', 'Hello  there', 'x &amp; y'])
+        st['sattr'] = rng.choice(['Tit le', 'Hello  there', 'x &amp; y', ''])
         if rng.random() < .6:
             st['i18nattr'] = rng.choice([None, 'tid'])
+        if st['sattr'] == '':
+            # an attribute that is empty as written: with an explicit message id it is translated like any other
+            # (without one the statement does not say whether '' is a message)
+            st['i18nattr'] = 'tid'
     if 'translate' in st and st['translate'] == '' and rng.random() < .15:
         st['content'] = True         # tal:content="v" + i18n:translate=""
     kids = []
